@@ -23,6 +23,11 @@ import OH.Props.ArithC01Eval
 import OH.Props.ArithC02Eval
 import OH.Props.ArithC02EvalDay
 import OH.Props.ArithC02EvalLink
+import OH.Props.ArithC02IterState
+import OH.Props.ArithC02IterNext
+import OH.Props.ArithC02IterNew
+import OH.Props.ArithC01Week
+import OH.Props.ArithC01WeekDays
 #print axioms OH.Props.C01.C01_spec_outside
 #print axioms OH.Props.C01.C01_model_outside
 #print axioms OH.Props.C01.C01_bound_irrelevant
@@ -285,3 +290,16 @@ import OH.Props.ArithC02EvalLink
 #print axioms OH.Props.ArithC02EvalDay.dayHint_eq_model
 #print axioms OH.Props.ArithC02EvalLink.nextChangeHint_linked
 #print axioms OH.Props.ArithC02EvalLink.isConstant_linked
+#print axioms OH.Props.ArithC02IterState.state_eq_model
+#print axioms OH.Props.ArithC02IterState.state_eq_model_expr
+#print axioms OH.Props.ArithC02IterState.isOpen_eq_model
+#print axioms OH.Props.ArithC02IterState.isClosed_eq_model
+#print axioms OH.Props.ArithC02IterState.isUnknown_eq_model
+#print axioms OH.Props.ArithC02IterNext.next_eq_model
+#print axioms OH.Props.ArithC02IterNew.new_eq_model
+#print axioms OH.Props.ArithC01Week.loop_agree_model
+#print axioms OH.Props.ArithC01Week.tail_agree
+#print axioms OH.Props.ArithC01Week.weekRange_hint_agree
+#print axioms OH.Props.ArithC01Week.weekRange_hint_total
+#print axioms OH.Props.ArithC01WeekDays.countDaysInMonth_agree
+#print axioms OH.Props.ArithC01WeekDays.countDaysInMonth_panic
